@@ -106,3 +106,15 @@ pub fn replay_cases(path: &str) -> Vec<String> {
 pub fn arg_value(rest: &[String], flag: &str) -> Option<String> {
     rest.iter().position(|x| x == flag).and_then(|p| rest.get(p + 1).cloned())
 }
+
+/// Crash breadcrumb: the case about to be run against unsafe real code is written first, so that if the
+/// process dies (heap corruption, abort) `check` can name the input that was running.
+pub fn breadcrumb(id: &str, case: &str) {
+    let root = std::env::var("VERIF_WORK").unwrap_or_else(|_| "/verif/work".into());
+    let _ = std::fs::create_dir_all(&root);
+    let _ = std::fs::write(format!("{root}/{id}.current"), case);
+}
+pub fn breadcrumb_clear(id: &str) {
+    let root = std::env::var("VERIF_WORK").unwrap_or_else(|_| "/verif/work".into());
+    let _ = std::fs::remove_file(format!("{root}/{id}.current"));
+}
